@@ -6,6 +6,9 @@ CHECKS = {
  'C01': dict(text='Generated-program search: every intensional predicate of typed core-fragment programs is compiled, executed on SQLite and compared as a multiset (and by column names) with an independent nested-loop reference evaluator; failures are delta-debugged to a minimal program.',
              note='Trusted: CPython, sqlite3, Hypothesis, the reference evaluator lv/ref.py (no code shared with the compiler; self-tested on the documentation examples). Bounded: <=7 predicates, <=6 rows/table, nesting <=2.',
              technique='property-based differential testing against a reference evaluator (Hypothesis)', ref='2/C01'),
+ 'C02': dict(text='Generated-program search over the aggregation profile (predicate-level and expression-level aggregation, distinct, negation, clashing local names, null inputs, empty groups, ties); every intensional predicate is run on SQLite and compared with the reference evaluator; a mismatch is attributed to a recorded engine deviation only if the reference reproduces the actual rows under exactly that deviation.',
+             note='Trusted: CPython, sqlite3, Hypothesis, reference evaluator lv/ref.py. Membership tests among nulls and comparisons of composite values are not asserted (counted as inconclusive).',
+             technique='property-based differential testing against a reference evaluator (Hypothesis)', ref='2/C02'),
 }
 NOT_YET = 'check not built yet in this round (planned in DESIGN.md)'
 m = {
